@@ -82,6 +82,24 @@ def gen_cases(tier, seed):
                       'once': r.random() < 0.3, 'pseed': r.randrange(1 << 30),
                       'mseed': seed * 1000 + (k % 3), 'tier': tier,
                       'cost': 30, 'timeout': 1500})
+    # the same intermediate with the same remainder tensors twice, the terms
+    # differ in the left-over denominator only (must not be pooled)
+    for q in range(8 if tier == 'quick' else 40):
+        name = r.choice(['t2_2', 't1_2', 't2_1', 't2_2'])
+        iseed = r.randrange(1 << 30)
+        d1, d2 = r.choice([(1, 2), (0, 1), (2, 1), (1, 0)])
+        nl = r.choice([0.5, 1.0])
+        terms = [{'itmd': name, 'iseed': iseed, 'denom': d1, 'pref': '1',
+                  'nlink': nl, 'free_ok': False, 'force_plain': True},
+                 {'itmd': name, 'iseed': iseed, 'denom': d2,
+                  'pref': r.choice(['3', '-2', '1/2']), 'nlink': nl,
+                  'free_ok': False, 'force_plain': True}]
+        cases.append({'id': f'C11-{tier[0]}{seed}-twodenom-{q}', 'kind': 'gen',
+                      'terms': terms,
+                      'request': r.choice(['same', 'with_t2_1', 'order']),
+                      'perturb': 'none', 'once': False,
+                      'pseed': r.randrange(1 << 30), 'mseed': seed * 1000,
+                      'tier': tier, 'cost': 40, 'timeout': 1500})
     # fixed exhibit of the open finding F23 (independent of the random stream):
     # 2 t2_2 Y - t2_2 Y' with antisymmetric remainders, one expanded term dropped
     cases.append({'id': f'C11-{tier[0]}{seed}-F23-exhibit', 'kind': 'gen',
@@ -187,7 +205,8 @@ def build_term(tdesc):
     link = r.sample(idx, k)
     occ_l = [s for s in link if s[0] in 'ijklmno']
     virt_l = [s for s in link if s[0] in 'abcdefgh']
-    if (len(occ_l) >= 2 or len(virt_l) >= 2) and r.random() < 0.6:
+    if (len(occ_l) >= 2 or len(virt_l) >= 2) and r.random() < 0.6 \
+            and not tdesc.get('force_plain'):
         # a remainder that is antisymmetric in the linked indices: several terms
         # of a long intermediate are then mapped onto each other
         from adcgen.sympy_objects import AntiSymmetricTensor
@@ -327,6 +346,17 @@ def run_case(case, res):
     if X.sympy != E.sympy:
         res.nontrivial = True
     observed['expanded_terms'] = len(X)
+    # the same expansion of the container with implicit (Einstein) targets: the
+    # expanded expression must still have the targets of the input
+    Ee = Expr(e, real=True, sym_tensors=['p2', 'p3', 't2sq'])
+    Xe = lib_call(Ee.expand_intermediates, fully_expand=not case['once'])
+    res.count('einstein_target_expansions')
+    for t_ in Xe.terms:
+        if set(t_.target) != set(tg):
+            res.violation(f'expand_intermediates of {Ee} (implicit targets '
+                          f'{[str(q_) for q_ in tg]}) returns a term with the '
+                          f'targets {[str(q_) for q_ in t_.target]}: {t_}')
+            return
     # factor (on the fully expanded, possibly perturbed expression) -----------
     if any(t.get('twice') for t in case['terms']):
         # products of two expansions: both expansion modes are compared; the
